@@ -35,13 +35,20 @@ Definition kind_eqb (a b : kind) : bool :=
 Record node := mkNode {
   nkind : kind; nperm : N; nuid : N; ngid : N;
   ntarget : string; ndata : string;
-  nchildren : list (string * nat)
+  nchildren : list (string * nat);
+  nback : string     (* tarfs only: content of the package's tar entry that backs this file ("" = none) *)
 }.
+(* what a reader sees and what Stat reports the size of: tarfs falls back to the
+   backing tar entry whenever the node's own buffer is EMPTY (pkg/tarfs/fs.go
+   openFile / memFileInfo.Size: [te != nil && len(data) == 0]) — so truncating
+   a package-backed file, or writing nothing to it, brings the package's
+   content back *)
+Definition edata (n : node) : string := if String.eqb (ndata n) "" then nback n else ndata n.
 Definition fs := list node.
 Definition root_ino : nat := 0.
 
 Definition empty_fs (root_perm : N) : fs :=
-  [mkNode KDir root_perm 0 0 "" "" []].
+  [mkNode KDir root_perm 0 0 "" "" [] ""].
 
 Definition get (f : fs) (i : nat) : option node := nth_error f i.
 Fixpoint set_nth {A} (l : list A) (i : nat) (x : A) : list A :=
@@ -65,13 +72,13 @@ Fixpoint remove_child (nm : string) (cs : list (string * nat)) : list (string * 
   end.
 
 Definition with_children (n : node) (cs : list (string * nat)) : node :=
-  mkNode (nkind n) (nperm n) (nuid n) (ngid n) (ntarget n) (ndata n) cs.
+  mkNode (nkind n) (nperm n) (nuid n) (ngid n) (ntarget n) (ndata n) cs (nback n).
 Definition with_perm (n : node) (p : N) : node :=
-  mkNode (nkind n) p (nuid n) (ngid n) (ntarget n) (ndata n) (nchildren n).
+  mkNode (nkind n) p (nuid n) (ngid n) (ntarget n) (ndata n) (nchildren n) (nback n).
 Definition with_owner (n : node) (u g : N) : node :=
-  mkNode (nkind n) (nperm n) u g (ntarget n) (ndata n) (nchildren n).
+  mkNode (nkind n) (nperm n) u g (ntarget n) (ndata n) (nchildren n) (nback n).
 Definition with_data (n : node) (d : string) : node :=
-  mkNode (nkind n) (nperm n) (nuid n) (ngid n) (ntarget n) d (nchildren n).
+  mkNode (nkind n) (nperm n) (nuid n) (ngid n) (ntarget n) d (nchildren n) (nback n).
 
 (* add a child entry [nm -> c] to directory [d] *)
 Definition add_child (f : fs) (d : nat) (nm : string) (c : nat) : fs :=
@@ -190,7 +197,7 @@ Definition is_dir (n : node) : bool := kind_eqb (nkind n) KDir.
    resolved the final symlink *)
 Definition stat (f : fs) (p : path) : fres node := gnode f p.
 
-Definition new_dir (perm : N) : node := mkNode KDir perm 0 0 "" "" [].
+Definition new_dir (perm : N) : node := mkNode KDir perm 0 0 "" "" [] "".
 
 Definition mkdir (f : fs) (p : path) (perm : N) : fres fs :=
   fdo d <- gn f (pdir p);
@@ -256,7 +263,7 @@ Fixpoint openfile (k : nat) (f : fs) (p : path) (perm : N) : fres (fs * nat) :=
       if negb (is_dir dn) then FErr
       else match lookup b (nchildren dn) with
            | None =>
-               let (f', i) := new_child f d b (mkNode KFile perm 0 0 "" "" []) in FOk (f', i)
+               let (f', i) := new_child f d b (mkNode KFile perm 0 0 "" "" [] "") in FOk (f', i)
            | Some c =>
                match get f c with
                | None => FErr
@@ -283,7 +290,7 @@ Fixpoint openfile (k : nat) (f : fs) (p : path) (perm : N) : fres (fs * nat) :=
 Definition read_or_create (f : fs) (p : path) (perm : N) : fres (fs * string) :=
   fdo r <- openfile maxl f p perm;
   let (f', i) := r in
-  match get f' i with Some n => FOk (f', ndata n) | None => FErr end.
+  match get f' i with Some n => FOk (f', edata n) | None => FErr end.
 
 (* Create (O_CREATE|O_TRUNC|O_RDWR, 0o666) then write [content], close *)
 Definition create_perm : N := 438.   (* 0o666 *)
@@ -298,7 +305,7 @@ Definition symlink (f : fs) (target : string) (p : path) : fres fs :=
       if negb (is_dir dn) then FErr   (* Go would panic on a nil map; unreachable after ensureParentDirectory *)
       else match lookup b (nchildren dn) with
            | Some _ => FErr
-           | None => FOk (fst (new_child f d b (mkNode KSym 511 0 0 target "" [])))
+           | None => FOk (fst (new_child f d b (mkNode KSym 511 0 0 target "" [] "")))
            end
   | _, _ => FErr
   end.
@@ -353,7 +360,7 @@ Record dentry := mkDentry {
 }.
 Definition strlen (s : string) : N := N.of_nat (String.length s).
 Definition dentry_of (pth : string) (n : node) : dentry :=
-  mkDentry pth (nkind n) (nperm n) (nuid n) (ngid n) (ntarget n) (strlen (ndata n)).
+  mkDentry pth (nkind n) (nperm n) (nuid n) (ngid n) (ntarget n) (strlen (edata n)).
 Definition join_path (dir nm : string) : string :=
   if String.eqb dir "" then nm else dir ++ "/" ++ nm.
 
